@@ -81,3 +81,86 @@ Proof.
 Qed.
 
 End PaperPrice.
+
+(* ---- every date: the copy's trajectory is Backtest.run's loop ---- *)
+Section PaperRun.
+Variable N : num.
+Notation A := (astate N).
+Notation tree := (tree N A).
+
+(* the body of Backtest.run's loop for one date, with the paper steps of level l for nested copies *)
+Definition loop_body (e : env N) (l i : nat) (tr : tree) : result tree :=
+  let ps := bt_paper_step e l in
+  tr <- root_update ps (Some i) tr ;;
+  match fst tr with
+  | NStrat g _ _ _ => if g_bankrupt g then Ok tr else (tr <- strat_run ps depth_fuel e [] tr ;; root_update ps (Some i) tr)
+  | NSec _ => Err EOther
+  end.
+
+Lemma root_update_is_strat ps date (tr tr' : tree) : root_update ps date tr = Ok tr' -> exists g k lz pp, fst tr' = NStrat g k lz pp.
+Proof.
+  unfold root_update. destruct (fst tr) as [s|g kids lz paper]; [discriminate|]. intros H.
+  apply bind_ok in H. destruct H as (inow & _ & H). apply bind_ok in H. destruct H as ([[[np g1] k1] [[v n] b]] & _ & H).
+  destruct (_ && _) in H.
+  - apply bind_ok in H. destruct H as ([k2 g2] & _ & H). apply bind_ok in H. destruct H as (g3 & _ & H).
+    destruct (all_skipped k2).
+    + apply bind_ok in H. destruct H as ([g4 p4] & _ & H). inversion H; subst. cbn. eauto.
+    + apply bind_ok in H. destruct H as ([[[np5 g5] k5] [[v5 n5] b5]] & _ & H). apply bind_ok in H. destruct H as (g6 & _ & H).
+      apply bind_ok in H. destruct H as ([g7 p7] & _ & H). apply bind_ok in H. destruct H as ([g8 p8] & _ & H).
+      inversion H; subst. cbn. eauto.
+  - apply bind_ok in H. destruct H as (g3 & _ & H). apply bind_ok in H. destruct H as ([g4 p4] & _ & H).
+    inversion H; subst. cbn. eauto.
+Qed.
+
+(* one date of the copy = one date of the loop, then the refresh a price read performs *)
+Theorem paper_step_is_loop_body (e : env N) (l i : nat) (p : tree) :
+  bt_paper_step e (S l) (Some i) p = bind (loop_body e l i p) (refresh (bt_paper_step e l)).
+Proof.
+  unfold bt_paper_step at 1. cbn [paper_step_l]. fold (bt_paper_step e l). unfold loop_body.
+  destruct (root_update (bt_paper_step e l) (Some i) p) as [p1|er] eqn:E1; cbn [bind]; [|reflexivity].
+  destruct (root_update_is_strat _ _ _ _ E1) as (g & k & lz & pp & Ef). rewrite Ef.
+  destruct (g_bankrupt g); [reflexivity|].
+  destruct (strat_run _ _ _ _ p1); cbn [bind]; reflexivity.
+Qed.
+
+(* all dates: fold of the copy's step = fold of (loop body; refresh) *)
+Definition fold_dates (f : nat -> tree -> result tree) (rows : list nat) (p : tree) : result tree :=
+  fold_left (fun rp i => bind rp (f i)) rows (Ok p).
+
+Theorem paper_run_is_backtest_loop (e : env N) (l : nat) (rows : list nat) (p : tree) :
+  fold_dates (fun i => bt_paper_step e (S l) (Some i)) rows p =
+  fold_dates (fun i q => bind (loop_body e l i q) (refresh (bt_paper_step e l))) rows p.
+Proof.
+  unfold fold_dates. generalize (Ok p : result tree). induction rows as [|i rows IH]; intros r; [reflexivity|].
+  cbn [fold_left]. rewrite <- IH. f_equal. destruct r; cbn [bind]; [apply paper_step_is_loop_body | reflexivity].
+Qed.
+
+Lemma fold_err (f : nat -> tree -> result tree) (rows : list nat) er :
+  fold_left (fun rp i => bind rp (f i)) rows (Err er) = Err er.
+Proof. induction rows as [|j rows IHr]; [reflexivity|]. cbn [fold_left bind]. exact IHr. Qed.
+
+Lemma fold_dates_bind (f : nat -> tree -> result tree) (rows : list nat) (r : result tree) :
+  fold_left (fun rp i => bind rp (f i)) rows r = bind r (fun p => fold_dates f rows p).
+Proof. destruct r as [p|er]; cbn [bind]; [reflexivity | apply fold_err]. Qed.
+
+Lemma fold_dates_cons (f : nat -> tree -> result tree) i rows p :
+  fold_dates f (i :: rows) p = bind (f i p) (fold_dates f rows).
+Proof. unfold fold_dates at 1. cbn [fold_left bind]. apply fold_dates_bind. Qed.
+
+(* Backtest.run's own loop is the same body, at its own level, without the refresh (which does nothing on a fresh tree) *)
+Theorem bt_loop_is_loop_body (e : env N) (rows : list nat) (tr : tree) :
+  bt_loop e rows tr = fold_dates (loop_body e bt_level) rows tr.
+Proof.
+  revert tr. induction rows as [|i rows IH]; intros tr; [reflexivity|].
+  rewrite fold_dates_cons. cbn [bt_loop]. unfold loop_body.
+  destruct (root_update (bt_paper_step e bt_level) (Some i) tr) as [p1|er]; cbn [bind]; [|reflexivity].
+  destruct (fst p1) as [s|g k lz pp]; cbn [bind]; [reflexivity|].
+  destruct (g_bankrupt g); cbn [bind]; [apply IH|].
+  destruct (strat_run _ _ _ _ p1) as [p2|er]; cbn [bind]; [|reflexivity].
+  destruct (root_update _ _ p2) as [p3|er]; cbn [bind]; [apply IH|reflexivity].
+Qed.
+
+Lemma refresh_fresh ps (tr : tree) : snd tr = false -> refresh ps tr = Ok tr.
+Proof. intros H. unfold refresh. rewrite H. reflexivity. Qed.
+
+End PaperRun.
